@@ -7,6 +7,7 @@
 //   kind 1 : (1 calc (nx..) (dx..) (x0..) nvar cells hasSel gdirs norder)   cells = ((sel (z..))..)  gdirs = ((npas (grincr..))..)
 //            grid-specialised algorithm (norder > 0: generalised variogram of that order); result = one block list per direction
 //   kind 3 : (3 calc (nx..) nvar cells hasSel (nxx..))                         db_vmap on a grid (no FFT)
+//   kind 7 : (7 calc (nx..) nvar cells hasSel (nxx..))                         db_vmap on a grid with flag_FFT = true
 //   kind 4 : (4 calc ndim nvar hasSel hasW samples (nxx..) (dxx..))            db_vmap on points (radius 0)
 //            result = ( ((Nb..) (Var..)) per variable pair )
 //   kind 5 : (5 ndim hasSel samples dir lagnb varnb dx0 dx1)                   db_vcloud: counts per cell (() = empty)
@@ -126,7 +127,7 @@ static std::string run(const Sx& c) {
     delete v; delete db;
     return o.str();
   }
-  if (kind == 1 || kind == 3) {
+  if (kind == 1 || kind == 3 || kind == 7) {
     int off = 0;
     ECalcVario calc = calcOf(c[1].i());
     VectorInt nx = c[2].vi();
@@ -166,7 +167,7 @@ static std::string run(const Sx& c) {
       return o.str();
     }
     VectorInt nxx = c[6].vi();
-    DbGrid* m = db_vmap(g, calc, nxx, VectorDouble(), 0, false);
+    DbGrid* m = db_vmap(g, calc, nxx, VectorDouble(), 0, kind == 7);
     if (m == nullptr) { delete g; return "(-996 4)"; }
     int nvs2 = nvar * (nvar + 1) / 2; int nc = m->getColumnNumber();
     o << "(";
